@@ -23,14 +23,14 @@ func findOutputDeps(instrs []*instruction) {
 // findOutputDepsReg finds register-based output dependencies in the code.
 func findOutputDepsReg(ins *instruction, regs keyInsMap) {
 	for r := range ins.outRegs {
-		dep, ok := regs[r]
-		if !ok {
-			regs[r] = ins
-			continue
+		if dep, ok := regs[r]; ok {
+			// We are certain that i != ins.
+			addDep(ins, dep)
 		}
 
-		// We are certain that i != ins.
-		addDep(ins, dep)
+		// Every writer depends on the closest following writer, so that
+		// all writers of a register form a chain.
+		regs[r] = ins
 	}
 }
 
